@@ -86,7 +86,14 @@ REQUIRED_CLASSES = (['%s.%s' % (c, k) for c in CLASSES3 for k in ('from_data', '
                     + ['%s.from_data:T_ref:int' % c for c in CLASSES3]
                     # histories: the same data / model fitted again in the same process
                     + ['%s.from_data:history:%s' % (c, h) for c in CLASSES3 for h in HIST_DATA]
-                    + ['%s.from_model:history:%s' % (c, h) for c in CLASSES3 for h in HIST_MODEL])
+                    + ['%s.from_model:history:%s' % (c, h) for c in CLASSES3 for h in HIST_MODEL]
+                    # NASA-7 T_mid candidate sequences: container type x exact duplicates
+                    + ['Nasa.%s:T_mid:%s:%s' % (k, t, d) for k in ('from_data', 'from_model')
+                       for t in ('list', 'tuple', 'ndarray') for d in ('dups', 'nodups')]
+                    # small but non-zero heat capacity (every sample 1e-12 <= |Cp/R| <= 1e-2)
+                    + ['%s:small_Cp:src:%s' % (c, k) for c in CLASSES3 for k in ('statmech', 'poly')]
+                    + ['%s.%s:small_Cp' % (c, k) for c in CLASSES3 for k in ('from_data', 'from_model')]
+                    + ['Shomate:small_Cp:%s' % u for u in UNITS])
 REQUIRED_BRANCHES = ['Nasa._fit_HoRT:T_ref<=T_mid', 'Nasa._fit_HoRT:T_ref>T_mid',
                      'Nasa._fit_SoR:T_ref<=T_mid', 'Nasa._fit_SoR:T_ref>T_mid',
                      'Nasa._fit_CpoR:zeroCp', 'Nasa._fit_CpoR:fit',
@@ -124,6 +131,13 @@ ASSUMPTIONS = [
     'upper interval); when the test fails it is repeated without the lowest data temperature to '
     'tell a fit that ignores that point (mech culprit=T_low_point) from a bad fit (culprit=grid); '
     'a degenerate (all |Cp/R|<=1e-8) StatMech source only gets A1-A3 and A5',
+    'precision floors are relative to the size of the data: A5(i) floor = 1e-6*max|Cp/R| + 2e-8, A4 '
+    'Cp error relative to max(|Cp/R| on the window, 2e-2); the absolute 2e-8 is the one deliberate '
+    'allowance: data that are ALL below 1e-8 may be fitted as zero heat capacity (documented '
+    'degenerate path); sources with 1e-12 <= |Cp/R| <= 1e-2 everywhere (stiff adsorbate on a cold '
+    'window, shrunk polynomial) are a required stratum for every class and Shomate unit',
+    'NASA-7 T_mid candidate sequences come as list, tuple or ndarray, in any order, with and '
+    'without exact duplicates (coarse + fine ranges concatenated)',
     'A5(ii) is evaluated in difference form, T*dH(T) - T_ref*dH(T_ref) = int dCp dT (ditto S), so '
     'that a wrong anchor (A1) is not reported a second time; the integral is split at every '
     'break and at every check point (Gauss-Legendre 16/32, panels T ratio <= 1.25), tolerance '
@@ -304,11 +318,44 @@ def _window(rng, mode=None):
         return 100.0, _r2(rng.uniform(200, 3000))
     if mode == 'high':
         return _r2(rng.uniform(100, 2900)), 3000.0
+    if mode == 'cold':                        # stiff vibrations stay almost frozen
+        lo = _r2(rng.uniform(100, 400))
+        return lo, _r2(rng.uniform(lo + 100, min(3.4 * lo, 680.0)))
     lo = _r2(rng.uniform(100, 2900))
     return lo, _r2(rng.uniform(lo + 100, 3000))
 
 
-def _gen_source(rng, kind, cls, lo, hi):
+def _small_statmech(rng, lo, hi):
+    """adsorbate with stiff modes only: 1e-12 <= Cp/R <= 1e-2 over the whole (cold) window"""
+    x_hi = rng.uniform(9.6, min(30.0, 33.0 * lo / hi))        # theta/T_high of the softest mode
+    nu_min = x_hi * hi / 1.438777
+    nus = [nu_min] + [rng.uniform(min(1.3 * nu_min, 4400.0), 4500.0) for _ in range(rng.randint(0, 4))]
+    rng.shuffle(nus)
+    return {'type': 'StatMech', 'name': 'src', 'trans': None, 'rot': None, 'nucl': None,
+            'vib': {'type': 'HarmonicVib', 'vib_wavenumbers': [float('%.6g' % v) for v in nus],
+                    'imaginary_substitute': None},
+            'elec': sp.gen_elec(rng, allow_none=False), 'elements': sp.gen_elements(rng)}
+
+
+def _shrink_poly(rng, fam, a, lo, hi):
+    """rescale the Cp part of a polynomial so that 0.1*m <= Cp/R <= m on the window, m log-uniform
+    in 1e-10 .. 1e-2 (the integration constants stay O(1..1e4))"""
+    ncp = {'nasa7': 5, 'nasa9': 7, 'shomate': 5}[fam]
+    cp = {'nasa7': lambda T: poly.nasa7_CpoR(a, T), 'nasa9': lambda T: poly.nasa9_CpoR(a, T),
+          'shomate': lambda T: poly.shomate_CpoR(a, T, 1.0)}[fam]
+    v = [cp(lo + (hi - lo) * i / 400.0) for i in range(401)]
+    pmin, pmax = min(v), max(v)
+    const = {'nasa7': 0, 'nasa9': 2, 'shomate': 0}[fam]
+    a = list(a)
+    a[const] += -pmin + 0.25 * (pmax - pmin) + 0.05           # strictly positive on the window
+    m = 10.0 ** rng.uniform(-10, -2)
+    f = m / (pmax - pmin + 0.25 * (pmax - pmin) + 0.05)
+    return [float('%.12g' % (x * f)) for x in a[:ncp]] + a[ncp:]
+
+
+def _gen_source(rng, kind, cls, lo, hi, small=False):
+    if small and kind == 'statmech_ads':
+        return {'kind': kind, 'spec': _small_statmech(rng, lo, hi)}
     if kind == 'statmech_gas':
         return {'kind': kind, 'spec': sp.gen_statmech(rng, name='src', gas=True)}
     if kind == 'statmech_ads':
@@ -337,7 +384,11 @@ def _gen_source(rng, kind, cls, lo, hi):
         a = [c[0], c[1] / th, c[2] / th ** 2, c[3] / th ** 3, c[4] * tl ** 2,
              rng.uniform(-100, 100), rng.uniform(-30, 30), 0.0]
         a = [float('%.12g' % v) for v in a]
+        if small:
+            a = _shrink_poly(rng, fam, a, lo, hi)
         return {'kind': kind, 'family': fam, 'a': a, 'units': rng.choice(UNITS)}
+    if small:
+        a = _shrink_poly(rng, fam, a, lo, hi)
     return {'kind': kind, 'family': fam, 'a': a}
 
 
@@ -357,15 +408,25 @@ def _between(rng, Ts, i, on_grid=None):
 
 def make_case(rng, cls=None, ctor=None, src=None, window=None, n_T=None, T_mid_mode=None,
               nseg=None, fit_T_mid=None, tref_mode=None, units=None, shuffle=None, gridkind=None,
-              tier='quick', order=None, ref_mode=None, T_mid_at_mid=False, tgrid=None, history=None):
+              tier='quick', order=None, ref_mode=None, T_mid_at_mid=False, tgrid=None, history=None,
+              small=None, tmid_type=None, tmid_dups=None):
     """order: None (draw) | 'keep' | 'desc';  ref_mode: None (draw) | 'source' | one of REF_MODES;
     T_mid_at_mid: scalar NASA-7 T_mid exactly at the window midpoint (= T_ref of from_model);
     tgrid: None (draw) | 'float' | 'int' (whole-kelvin integer-typed grid / integer bounds);
-    history: None (draw) | 'none' | list of kinds from HIST_DATA / HIST_MODEL"""
+    history: None (draw) | 'none' | list of kinds from HIST_DATA / HIST_MODEL;
+    small: None (draw) | bool -- source with small but non-zero Cp/R (stiff adsorbate on a cold window
+    or a shrunk polynomial); tmid_type / tmid_dups: container type of a NASA-7 candidate sequence
+    ('list' | 'tuple' | 'ndarray') and whether it holds exact duplicates"""
     import numpy as np
     cls = cls or rng.choices(CLASSES3, [4, 5, 3])[0]
     ctor = ctor or rng.choice(['from_data', 'from_model'])
     src = src or rng.choices(SRC_KINDS, [30, 25, 10, 8, 27])[0]
+    if small is None:                         # (directed cases pass small: their draws are unchanged)
+        small = rng.random() < 0.07
+    if small and src not in ('statmech_ads', 'poly'):
+        src = rng.choice(['statmech_ads', 'poly'])
+    if small and src == 'statmech_ads':
+        window = 'cold'
     lo, hi = _window(rng, window)
     if tgrid is None:                         # (directed cases pass tgrid: their draws are unchanged)
         tgrid = 'int' if rng.random() < 0.15 else 'float'
@@ -441,7 +502,24 @@ def make_case(rng, cls=None, ctor=None, src=None, window=None, n_T=None, T_mid_m
             else:
                 if rng.random() < 0.25:
                     rng.shuffle(cands)
+                if tmid_dups is None:
+                    tmid_dups = rng.random() < 0.3
+                if tmid_type is None:
+                    tmid_type = rng.choice(['list', 'list', 'tuple', 'ndarray'])
+                if tmid_dups:
+                    # e.g. a coarse and a fine candidate range concatenated: exact duplicates
+                    coarse = rng.sample(cands, rng.randint(1, len(cands)))
+                    r = rng.random()
+                    if r < 0.4:
+                        cands = coarse + cands
+                    elif r < 0.6:
+                        cands = cands + coarse
+                    else:
+                        cands = cands + coarse
+                        rng.shuffle(cands)
                 spec['T_mid'] = cands
+                if tmid_type != 'list':
+                    spec['T_mid_type'] = tmid_type
     elif cls == 'Nasa9':
         spec['fit_T_mid'] = bool(fit_T_mid)
         spec['n_interval'] = nseg
@@ -510,7 +588,7 @@ def make_case(rng, cls=None, ctor=None, src=None, window=None, n_T=None, T_mid_m
         spec['T_ref'] = min(max(float(T_ref), lo), hi)
         if tgrid == 'int' and spec['T_ref'] == math.floor(spec['T_ref']):
             spec['T_ref_int'] = True           # handed over as a Python int
-    spec['source'] = _gen_source(rng, src, cls, lo, hi)
+    spec['source'] = _gen_source(rng, src, cls, lo, hi, small=bool(small))
     if ctor == 'from_data':
         # strictly descending temperature array
         if order is None:
@@ -596,6 +674,9 @@ def directed(tier):
         kw.setdefault('ref_mode', 'source')
         kw.setdefault('tgrid', 'float')
         kw.setdefault('history', 'none')
+        kw.setdefault('small', False)
+        kw.setdefault('tmid_type', 'list')
+        kw.setdefault('tmid_dups', False)
         D.append(make_case(random.Random('C03-directed-%d' % k[0]), tier=tier, **kw))
         return D[-1]
 
@@ -759,6 +840,28 @@ def directed(tier):
     mk(cls='Nasa', ctor='from_data', src='zero', T_mid_mode='scalar', history=['new_ref'])
     mk(cls='Nasa', ctor='from_data', src='const', T_mid_mode='None', history=['new_ref', 'T_ref_sweep'],
        tgrid='int')
+    # --- NASA-7 candidate sequences with exact duplicates, as list / tuple / ndarray, smooth sources
+    for ctor in ('from_data', 'from_model'):
+        for tt in ('list', 'tuple', 'ndarray'):
+            for src in ('statmech_gas', 'statmech_ads'):
+                for win in ('full', 'any'):
+                    mk(cls='Nasa', ctor=ctor, src=src, T_mid_mode='list', tmid_type=tt, tmid_dups=True,
+                       window=win, n_T=60 if win == 'full' else None)
+            mk(cls='Nasa', ctor=ctor, src='statmech_gas', T_mid_mode='list', tmid_type=tt, tmid_dups=False)
+            mk(cls='Nasa', ctor=ctor, src='poly', T_mid_mode='list', tmid_type=tt, tmid_dups=True)
+    # --- small but non-zero Cp/R: every Shomate unit, both constructors, both kinds of source
+    for i, u in enumerate(UNITS):
+        mk(cls='Shomate', ctor='from_data' if i % 2 else 'from_model', src='statmech_ads', small=True, units=u)
+        mk(cls='Shomate', ctor='from_model' if i % 2 else 'from_data', src='poly', small=True, units=u)
+    for u in ('Eh/K', 'Ha/K', 'eV/K', 'm3 bar/mol/K'):
+        for ctor in ('from_data', 'from_model'):
+            mk(cls='Shomate', ctor=ctor, src='statmech_ads', small=True, units=u)
+    for cls in ('Nasa', 'Nasa9'):
+        kw = dict(T_mid_mode='list', fit_T_mid=False) if cls == 'Nasa9' else {}
+        for ctor in ('from_data', 'from_model'):
+            for src in ('statmech_ads', 'poly'):
+                mk(cls=cls, ctor=ctor, src=src, small=True, **kw)
+                mk(cls=cls, ctor=ctor, src=src, small=True, **kw)
     return D
 
 
@@ -870,6 +973,10 @@ def _construct(spec, src, T, Cp, ref):
     tm = spec.get('T_mid')
     if isinstance(tm, list):
         tm = list(tm)
+        if spec.get('T_mid_type') == 'tuple':
+            tm = tuple(tm)
+        elif spec.get('T_mid_type') == 'ndarray':
+            tm = np.array(tm, dtype=float)
     if ctor == 'from_data':
         kw = dict(name='fit', T=T, CpoR=Cp, T_ref=int(ref[0]) if spec.get('T_ref_int') else ref[0],
                   HoRT_ref=ref[1], SoR_ref=ref[2], elements={'H': 2})
@@ -1069,6 +1176,16 @@ def _one_fit(spec, ctx, src, hist=None):
     zero_path = _ST['zero'] if _ST['zero'] is not None else degenerate
     tpos = tref_position(breaks, T_ref)
     mech = dict(mech0, tref_pos=tpos, path='zeroCp' if zero_path else 'fit')
+    acp = np.abs(np.asarray(Cp, dtype=float))
+    if bool(np.all((acp >= 1e-12) & (acp <= 1e-2))):
+        mech['mag'] = 'small'                # small but non-zero heat capacity everywhere
+        ctx.cls('%s:small_Cp:src:%s' % (cls, 'poly' if kind == 'poly' else 'statmech'),
+                '%s.%s:small_Cp' % (cls, ctor))
+        if cls == 'Shomate':
+            ctx.cls('Shomate:small_Cp:%s' % spec['units'])
+    if cls == 'Nasa' and mode == 'list':
+        ctx.cls('Nasa.%s:T_mid:%s:%s' % (ctor, spec.get('T_mid_type', 'list'),
+                                         'dups' if len(set(tm_spec)) < len(tm_spec) else 'nodups'))
     if cls == 'Nasa9':
         mech['nseg'] = nseg
         ctx.cls('Nasa9:nseg:%d' % nseg)
@@ -1174,8 +1291,14 @@ def _one_fit(spec, ctx, src, hist=None):
                 break
         if not bad:
             for name in ('CpoR', 'HoRT', 'SoR'):
+                scale = None
+                if name == 'CpoR':
+                    # relative to the size of the heat capacity on the window; data that are all
+                    # below 1e-8 may be treated as zero (absolute allowance 2e-8 = 1e-6 * 2e-2)
+                    gq, wq = np.abs(np.array(got[name])), np.abs(np.array(exp[name]))
+                    scale = np.maximum(np.maximum(gq, wq), max(float(np.max(wq)), 2e-2))
                 ctx.close('A4', got[name], exp[name], precision(cls, lo, hi)[0], dict(mech, q=name),
-                          edges=edges)
+                          scale=scale, edges=edges)
     # ---------------- A5 smooth sources
     if kind in ('statmech_gas', 'statmech_ads'):
         _a5(ctx, spec, obj, src, cls, mech, T, Cp, edges, T_ref, g)
@@ -1275,7 +1398,9 @@ def _a5(ctx, spec, obj, src, cls, mech, T, Cp, edges, T_ref, g):
     fitcp = np.array(fitcp)
     d = fitcp - Cp
     fam = FAMILY[cls]
-    floor = precision(cls, edges[0], edges[-1])[1]
+    # precision floor relative to the size of the data; 2e-8 absolute because data that are all
+    # below 1e-8 may be treated as zero heat capacity
+    floor = precision(cls, edges[0], edges[-1])[1] * float(np.max(np.abs(Cp))) + 2e-8
     try:
         res = [reffit.fit(fam, T, Cp, breaks).resid]
         if fam == 'nasa9':
